@@ -96,6 +96,12 @@ CHECKS["C13"] = {
     "technique": "symbolic execution (CrossHair/z3) of the whole analysis on a spelling template with symbolic argument values under a single-bit-token ideal-hash model",
 }
 
+CHECKS["C16"] = {
+    "text": "Real set_store / LocalFileStore / evaluation / load code over the file-system model with a working directory and symlinked directories: for every pair of directory forms (absolute, relative, trailing slash, nested non-existing, under a symlinked parent whose target lies at another depth) with cache_objects (None, False, True, 0, -1, n), the point at which the working directory changes and the payload as solver variables: keep, load before and after chdir, load and re-evaluation in a fresh process return the kept values and the fresh process executes nothing. Two stores sharing one internal directory with different data directories, interleaved in solver-chosen order: blobs are shared (no recomputation), a path only kept through one view is unknown to the other, a re-keep through one view does not disturb the other. Counterexamples are replayed on the real OS with real symlinks and chdir.",
+    "design_ref": "DESIGN.md 5-C16",
+    "technique": "symbolic execution (CrossHair/z3) of the real local store configuration code over a file-system model with cwd and symlinks; real-OS replay",
+}
+
 NOT_APPLICABLE = {}
 
 
